@@ -86,7 +86,7 @@ pub(super) fn generate_parser_actions(generator: &ParserGenerator) -> Result<()>
         };
         let mut base_use: Vec<syn::Stmt> = vec![];
         if generator.settings.builder_loc_info {
-            base_use.push(parse_quote! {use rustemo::{ValSpan, Context as C};})
+            base_use.push(parse_quote! {use rustemo::{ValSpan, Context as _};})
         };
         base_use.push(parse_quote! {use rustemo::Token as RustemoToken;});
         base_use.push(parse_quote! {use super::#parser_mod::{TokenKind, Context};});
